@@ -39,8 +39,39 @@ Calibration
   raises NotImplementedError -> counted as unsupported.
 * a wrong computed shape is reported once (not again as lazy-shape).
 
+Parameter audit (second random stream, cases tagged "fam"; counters aud:<family>, all floored)
+  dtype          int32 / uint8 / float32 (+NaN) / +-inf data, float32 / int32 weights, different dtypes of the two operands of
+                 searchsorted and isin
+  big            more than 255 elements (single chunks above 255: aud:chunk>255), more than 255 distinct values, values above 255,
+                 counts above 255, 300-1000 rows for bincount / histogram / histogramdd / count_nonzero
+  histforms      histogram: range= as list / ndarray / dask array of shape (2,) / lazy 0-d dask scalars / one lazy and one concrete /
+                 delayed scalars; a lazy number of bins (0-d dask array); range= next to explicit edges; float32 weights
+  ddforms        histogram2d / histogramdd: edges as lists / tuples, sequence of ints as tuple, range as lists / ndarray, the sample as
+                 a list, fractional / float32 / int32 weights
+  digitize_bins  bins as list / integer ndarray / float32 ndarray / empty
+  ss_forms       searchsorted: sorter= on unsorted a (must be refused with NotImplementedError or honoured - never ignored), 0-d v
+  aslike         NumPy arrays and nested lists where the routine converts its argument itself: isin(element), argwhere / nonzero /
+                 flatnonzero / count_nonzero / compress(a)
+  rmi_forms      ravel_multi_index: one mode per dimension, dims as list / ndarray, int32 indices, tuple members that broadcast
+                 (Python int, NumPy array, length-1 axes); unravel_index: int32 / uint8 indices, shape as list
+  coarsen_kw     coarsen: keyword arguments for the reduction (np.var ddof=1, np.std ddof=0, np.sum dtype=), np.prod, da.mean, da.max,
+                 axes of length 9-24 (several blocks larger than the factor), a factor larger than the axis with trim_excess
+State facet: every NumPy array handed to from_array is copied before the computation and compared afterwards
+(``<op>:...:input-array-modified``; counter inputs_unchanged_checked); bincount counts input:combine-level when there are more blocks
+than split_every.
+Calibration of the audit families
+* float32 data with a NUMBER of bins: NumPy >= 2 returns float32 edges (result_type(range, a)) and computes density with float32
+  widths, dask documents "bin_edges: dtype float" and returns the more accurate float64 values -> float32 data is only combined with
+  explicit edges.
+* np.median cannot reduce a zero-size block over several axes ("cannot reshape array of size 0") -> not used as a coarsen reduction.
+* unravel_index(shape=ndarray) is outside the documented "tuple of ints" (dask evaluates ``if shape``) -> list / tuple only.
+* a nested list of a zero-size n-d array does not keep its shape and has its own dtype: the reference gets the same list.
+* bins / range as a plain Delayed sequence without nout= is ambiguous for dask (length unknown) and not generated; the lazy forms are
+  the ones dask's own tests use (list of lazy scalars, dask arrays).
+
 Sibling facet (vf/mon/siblings.py): every case is also built a second time with ONE result-relevant parameter changed
-(another minlength / bins / range / density / right / side / invert / axis / mode / order / dims / coarsening factor or reduction).
+(another minlength / bins / range / density / right / side / invert / axis / mode / order / dims / coarsening factor, reduction or
+reduction keyword).
 The two lazily built collections must not share output keys unless their stand-alone values are equal (label
 ``<op>:<param>-not-in-name:siblings-share-keys``); for a seeded ~15 % of the cases both are also computed in one graph and
 compared with their stand-alone values (``<op>:<param>:differs-when-computed-with-sibling``).  Counters siblings_built /
@@ -116,6 +147,14 @@ PENDING = {
     "unique:short-axis-split:mismatch-or-error": "unique(return_inverse=True): Missing dependency / AxisError / key strings leaking into the result",
     "compress:short-axis-split:mismatch-or-error": "compress with a dask condition chunked (1, 0): key strings leak into concatenate3 / wrong shape",
     "ravel_multi_index:short-axis-split:mismatch-or-error": "ravel_multi_index(tuple of zero-length arrays chunked (0,) and (0, 0)): 'Chunks do not align'",
+    # found by the parameter audit (fixes_ready/C27_06 .. C27_08)
+    "coarsen:factor>length:ValueError@array/core.py:normalize_chunks":
+        "coarsen(trim_excess=True) with a factor larger than the axis: 'Empty tuples are not allowed in chunks' instead of a zero-length axis",
+    "coarsen:kwargs-not-in-name:siblings-share-keys":
+        "coarsen leaves the reduction's **kwargs (ddof=, dtype=) out of its token: two results that differ only there share a name",
+    "coarsen:kwargs:differs-when-computed-with-sibling": "same mechanism, seen as a wrong value when both are computed in one graph",
+    "searchsorted:v-0d:TypeError@array/routines.py:_searchsorted_block":
+        "searchsorted with a 0-d v: the per-block kernel assigns into the NumPy scalar np.searchsorted returns",
 }
 
 OPS = ["unique", "unique", "bincount", "bincount", "histogram", "histogram", "histogram2d", "histogramdd", "digitize",
@@ -179,6 +218,14 @@ def cases(tier, seed):
     for _ in range(n):
         op = rng.choice(OPS)
         yield globals()["_g_" + op](rng)
+    # ---- parameter-audit part: value classes of the named parameters the random part above never produces ------
+    # (own random stream, so the cases above stay what they were)
+    arng = random.Random(seed * 7919 + 2727)
+    for _ in range(1300 if tier == "quick" else 13000):
+        fam = arng.choice(AUDIT)
+        c = globals()["_a_" + fam](arng)
+        c["fam"] = fam
+        yield c
 
 
 def _g_unique(rng):
@@ -345,6 +392,235 @@ def _g_compress(rng):
             "cchunks": _echunks(rng, [ln])[0], "cseed": rng.randrange(2 ** 31)}
 
 
+
+# ---------------------------------------------------------------------------------------------------------
+# parameter-audit families (see the docstring section "Parameter audit")
+# ---------------------------------------------------------------------------------------------------------
+AUDIT = ["dtype", "dtype", "dtype", "big", "big", "big", "histforms", "histforms", "ddforms", "ddforms", "digitize_bins",
+         "ss_forms", "aslike", "aslike", "rmi_forms", "rmi_forms", "coarsen_kw", "coarsen_kw"]
+DTYPES = ("int32", "uint8", "float32", "floatnan32", "floatinf")
+
+
+def _a_dtype(rng):
+    """Narrow integer / float32 dtypes, +-inf, and mixed dtypes between the two operands."""
+    op = rng.choice(("unique", "unique", "bincount", "histogram", "digitize", "searchsorted", "searchsorted", "isin", "isin",
+                     "argwhere", "nonzero", "flatnonzero", "count_nonzero", "compress"))
+    c = globals()["_g_" + op](rng)
+    dt = rng.choice(DTYPES)
+    if op == "bincount":
+        c["weights"] = rng.choice(("float32", "int32"))
+    elif op == "searchsorted":
+        c["a"]["vals"] = dt + "-sorted"
+        c["v"]["vals"] = rng.choice(("int", "float", "int32") if dt in ("int32", "uint8") else ("float", "float32", "floatinf", "floatnan", "int"))
+    elif op == "isin":
+        c["a"]["vals"] = dt
+        c["t"]["vals"] = rng.choice(("int", "float", "int32", "float32", "uint8"))
+    else:
+        c["a"]["vals"] = dt
+        if op == "histogram" and dt.endswith("32"):
+            while c["bins"]["kind"] == "int":       # see Calibration: float32 data with a number of bins
+                c["bins"] = _bins(rng)
+    return c
+
+
+def _bigchunks(rng, n):
+    fl = rng.choice(("one", "two", "irregular", "irregular", "regular"))
+    if fl == "regular":
+        k = rng.randint(max(1, n // 6), n)
+        c = [k] * (n // k) + ([n % k] if n % k else [])
+    else:
+        c = list(A.rand_comp(rng, n, fl))
+    if rng.random() < 0.3:
+        c.insert(rng.randint(0, len(c)), 0)
+    return c
+
+
+def _big_arr(rng, vals, sizes=(257, 300, 384, 420), nd2=0.0):
+    if rng.random() < nd2:
+        shape = list(rng.choice(((17, 19), (20, 16), (3, 100), (130, 2))))
+    else:
+        shape = [rng.choice(sizes)]
+    return {"shape": shape, "chunks": [_bigchunks(rng, n) for n in shape], "vals": vals, "seed": rng.randrange(2 ** 31)}
+
+
+def _a_big(rng):
+    """More than 255 elements (one chunk may hold more than 255), more than 255 distinct values, counts above 255."""
+    op = rng.choice(("unique", "unique", "bincount", "bincount", "histogram", "histogramdd", "digitize", "searchsorted", "searchsorted",
+                     "isin", "argwhere", "nonzero", "flatnonzero", "count_nonzero", "compress", "ravel_multi_index", "unravel_index"))
+    c = globals()["_g_" + op](rng)
+    many = (300, 600, 1000)
+    if op == "unique":
+        c["a"] = _big_arr(rng, rng.choice(("wide", "wide", "widefloat", "alpha3")), nd2=0.25)
+    elif op == "bincount":
+        c["a"] = _big_arr(rng, rng.choice(("wide", "alpha3")), sizes=many)
+        c["minlength"] = rng.choice((0, 0, 5, 300, 700))
+    elif op == "histogram":
+        c["a"] = _big_arr(rng, rng.choice(("alpha3", "int", "floatnan")), sizes=many, nd2=0.2)
+    elif op == "histogramdd":
+        c["n"] = rng.choice(many)
+        c["rows"] = _bigchunks(rng, c["n"])
+        c["vals"] = rng.choice(("alpha3", "int", "float"))
+    elif op == "digitize":
+        c["a"] = _big_arr(rng, rng.choice(("int", "floatnan")), nd2=0.3)
+    elif op == "searchsorted":
+        c["a"] = _big_arr(rng, rng.choice(("wide-sorted", "wide-sorted", "widefloat-sorted", "alpha3-sorted")))
+        vv = "wide" if c["a"]["vals"].startswith(("wide-", "alpha3")) else "widefloat"
+        c["v"] = _big_arr(rng, vv, sizes=(5, 40, 300), nd2=0.2)
+    elif op == "isin":
+        c["a"] = _big_arr(rng, rng.choice(("wide", "widefloat")), nd2=0.2)
+        c["t"] = _big_arr(rng, "wide" if c["a"]["vals"] == "wide" else "widefloat", sizes=(3, 40, 300))
+    elif op in ("argwhere", "nonzero", "flatnonzero", "count_nonzero"):
+        c["a"] = _big_arr(rng, rng.choice(("bool", "alpha3")), sizes=many if op == "count_nonzero" else (257, 300, 420), nd2=0.3)
+        if op == "count_nonzero":
+            nd = len(c["a"]["shape"])
+            c["axis"] = rng.choice([None] + list(range(-nd, nd)))
+    elif op == "compress":
+        c["a"] = _big_arr(rng, "wide", nd2=0.3)
+        nd = len(c["a"]["shape"])
+        c["axis"] = rng.choice([None] + list(range(-nd, nd)))
+        n = int(np.prod(c["a"]["shape"])) if c["axis"] is None else c["a"]["shape"][c["axis"]]
+        c["clen"] = rng.choice((n, n, max(0, n - 3)))
+        c["cchunks"] = _bigchunks(rng, c["clen"]) if c["clen"] else [0]
+    elif op == "ravel_multi_index":
+        c["dims"] = [rng.choice((20, 30, 300)) for _ in c["dims"]]
+        c["ishape"] = [rng.choice((257, 300))]
+        c["chunks"] = [[_bigchunks(rng, c["ishape"][0])] for _ in c["dims"]]
+        c["schunks"] = [A.rand_comp(rng, len(c["dims"])), _bigchunks(rng, c["ishape"][0])]
+        c["schunks"] = [list(c["schunks"][0]), c["schunks"][1]]
+    elif op == "unravel_index":
+        c["dims"] = [rng.choice((17, 23, 300)) for _ in c["dims"]]
+        c["ishape"] = [rng.choice((257, 300))]
+        c["chunks"] = [_bigchunks(rng, c["ishape"][0])]
+    c["big"] = True
+    return c
+
+
+def _a_histforms(rng):
+    """histogram: every accepted form of range= (list, ndarray, dask array, lazy scalars), a lazy number of bins, range= given next
+    to explicit edges (NumPy ignores it), float32 weights."""
+    c = _g_histogram(rng)
+    form = rng.choice(("range", "range", "range", "nbins-lazy", "range+edges", "weights32"))
+    if form in ("range", "nbins-lazy"):
+        while c["bins"]["kind"] != "int":
+            c["bins"] = _bins(rng)
+        if form == "range":
+            c["range_kind"] = rng.choice(("list", "ndarray", "dask", "lazy", "mixed", "delayed-scalars"))
+        else:
+            c["bins"] = dict(c["bins"], kind="int-dask0d")
+            c["density"] = rng.choice((None, False))      # documented: NotImplementedError with density=True
+            c["range_kind"] = rng.choice(("tuple", "lazy"))
+    elif form == "range+edges":
+        while c["bins"]["kind"] == "int":
+            c["bins"] = _bins(rng)
+        lo = rng.choice((-1, 0, 0.5))
+        c["extra_range"] = [lo, lo + rng.choice((0.5, 1, 2))]
+    else:
+        c["weights"] = "float32"
+    c["form"] = form
+    return c
+
+
+def _a_ddforms(rng):
+    """histogram2d / histogramdd: edges as lists / tuples, range as lists / ndarray, the sample as a list, fractional and float32 weights."""
+    c = _g_histogram2d(rng) if rng.random() < 0.45 else _g_histogramdd(rng)
+    c["edges_kind"] = rng.choice(("list", "tuple", "ndarray-in-tuple"))
+    c["range_kind"] = rng.choice(("list", "ndarray", "tuple"))
+    c["sample_kind"] = rng.choice(("list", "tuple"))
+    c["weights"] = rng.choice((None, "frac", "frac", "float32", "int32"))
+    return c
+
+
+def _a_digitize_bins(rng):
+    c = _g_digitize(rng)
+    c["bins_kind"] = rng.choice(("list", "int-ndarray", "float32", "empty"))
+    if c["bins_kind"] == "int-ndarray":
+        c["edges"] = sorted({int(e) for e in c["edges"]}, reverse=len(c["edges"]) > 1 and c["edges"][0] > c["edges"][-1])
+    elif c["bins_kind"] == "empty":
+        c["edges"] = []
+    return c
+
+
+def _a_ss_forms(rng):
+    """searchsorted: sorter= (documented unsupported: must be refused, not ignored) and a 0-d v."""
+    c = _g_searchsorted(rng)
+    if rng.random() < 0.5:
+        c["sorter"] = True
+        if 0 in c["a"]["shape"] or c["a"]["shape"][0] < 3:
+            c["a"] = _arr(rng, shape=[rng.choice((3, 5, 8))], vals=c["a"]["vals"])
+    else:
+        c["v"] = dict(c["v"], shape=[], chunks=[])
+    return c
+
+
+def _a_aslike(rng):
+    """NumPy arrays / lists where the routine converts its argument itself (asarray)."""
+    op = rng.choice(("isin", "isin", "argwhere", "nonzero", "flatnonzero", "count_nonzero", "compress", "compress"))
+    c = globals()["_g_" + op](rng)
+    if op == "isin":
+        c["ekind"] = rng.choice(("numpy", "list"))
+    else:
+        c["akind"] = rng.choice(("numpy", "numpy", "list"))
+        if op == "compress":
+            c["ckind"] = rng.choice(("dask", "dask", "numpy", "list"))
+    return c
+
+
+def _a_rmi_forms(rng):
+    """ravel_multi_index: a mode per dimension, dims as list / ndarray, int32 indices, tuple members that broadcast
+    (a Python int, a NumPy array, length-1 axes); unravel_index: int32 indices, shape as a list."""
+    if rng.random() < 0.3:
+        c = _g_unravel_index(rng)
+        c["idtype"] = rng.choice(("int32", "int64", "uint8"))
+        c["dims_kind"] = rng.choice(("list", "list", "tuple"))        # documented: tuple of ints
+        return c
+    c = _g_ravel_multi_index(rng)
+    form = rng.choice(("mode", "mode", "dims", "idtype", "members", "members"))
+    nd = len(c["dims"])
+    if form == "mode":
+        c["mode"] = [rng.choice(("raise", "wrap", "clip")) for _ in range(nd)]
+    elif form == "dims":
+        c["dims_kind"] = rng.choice(("list", "ndarray"))
+        c["scalar_dims"] = False
+    elif form == "idtype":
+        c["idtype"] = "int32"
+    else:
+        c["stacked"] = False
+        mem = [rng.choice(("dask", "numpy", "scalar", "ones")) for _ in range(nd)]
+        if all(m != "dask" for m in mem):
+            mem[rng.randrange(nd)] = "dask"
+        c["members"] = mem
+        c["ones_mask"] = [[rng.random() < 0.5 for _ in c["ishape"]] for _ in range(nd)]
+    c["form"] = form
+    return c
+
+
+def _a_coarsen_kw(rng):
+    """coarsen: keyword arguments forwarded to the reduction, further reductions, axes much longer than the factor, a factor
+    larger than the axis with trim_excess (empty result)."""
+    c = _g_coarsen(rng)
+    u = rng.random()
+    if u < 0.55:
+        c["red"] = rng.choice(("var1", "std0", "sumf64", "prod", "da.mean", "da.max", "var1"))
+        if c["red"] == "prod":
+            c["a"]["vals"] = "int"           # exact whatever the order of the multiplications
+    if u > 0.35:
+        nd = rng.choice((1, 1, 2))
+        shape = [rng.choice((9, 10, 12, 15, 16, 20, 24)) for _ in range(nd)]
+        c["a"] = _arr(rng, shape=shape, vals=c["a"]["vals"])
+        trim = c["trim_excess"]
+        axes = {}
+        for ax, n in enumerate(shape):
+            if rng.random() < 0.8:
+                axes[str(ax)] = rng.randint(1, n) if trim else rng.choice([k for k in range(1, n + 1) if n % k == 0])
+        c["axes"] = axes
+        c["long"] = True
+    if rng.random() < 0.06:
+        ax = rng.randrange(len(c["a"]["shape"]))
+        c["trim_excess"] = True
+        c["axes"] = dict(c["axes"])
+        c["axes"][str(ax)] = c["a"]["shape"][ax] + rng.randint(1, 3)
+    return c
+
 # ---------------------------------------------------------------------------------------------------------
 # data
 # ---------------------------------------------------------------------------------------------------------
@@ -369,11 +645,22 @@ def _data(desc):
         a = r.integers(-3, 4, n).astype("int64")
     elif base == "bool":
         a = r.integers(0, 2, n).astype(bool)
-    elif base in ("float", "floatnan"):
-        a = (r.integers(-6, 7, n) / 2).astype("float64")
-        if base == "floatnan" and n:
+    elif base in ("float", "floatnan", "float32", "floatnan32", "floatinf"):
+        a = (r.integers(-6, 7, n) / 2).astype("float32" if base.endswith("32") else "float64")
+        if base.startswith("floatnan") and n:
             k = int(r.integers(1, max(2, n // 3 + 1)))
             a[r.integers(0, n, k)] = np.nan
+        if base == "floatinf" and n:
+            k = int(r.integers(1, max(2, n // 3 + 1)))
+            a[r.integers(0, n, k)] = r.choice([np.inf, -np.inf], k)
+    elif base == "int32":
+        a = r.integers(-3, 4, n).astype("int32")
+    elif base == "uint8":
+        a = r.integers(0, 7, n).astype("uint8")
+    elif base == "wide":
+        a = r.integers(0, max(n, 260) + 40, n).astype("int64")      # more than 255 distinct values, values above 255
+    elif base == "widefloat":
+        a = (r.integers(-max(n, 260), max(n, 260), n) / 2).astype("float64")
     else:
         raise AssertionError(vals)
     if srt:
@@ -395,10 +682,10 @@ def _da(desc):
 def _weights(kind, wseed, shape):
     r = np.random.default_rng(wseed)
     n = int(np.prod(shape)) if len(shape) else 1
-    if kind == "int":
-        w = r.integers(-2, 5, n).astype("int64")
-    elif kind == "float":
-        w = (r.integers(-4, 9, n) / 4).astype("float64")       # exactly summable
+    if kind in ("int", "int32"):
+        w = r.integers(-2, 5, n).astype("int64" if kind == "int" else "int32")
+    elif kind in ("float", "float32"):
+        w = (r.integers(-4, 9, n) / 4).astype("float64" if kind == "float" else "float32")       # exactly summable
     else:
         w = r.random(n)                                          # needs the reassociation tolerance
     return w.reshape(shape)
@@ -453,6 +740,9 @@ def _evaluate(case):
         return dict(out, status="reject", reason="numpy: %s: %s" % (type(ex).__name__, ex))
     import dask
 
+    # STATE: from_array hands the very NumPy buffers to the kernels (sync scheduler); a routine must not write into them
+    inputs = [i for i in plan.get("inputs", ()) if isinstance(i, np.ndarray)]
+    before = [i.copy() for i in inputs]
     try:
         lazy = plan["run"]()
         lazy = tuple(lazy) if isinstance(lazy, (tuple, list)) else (lazy,)
@@ -472,6 +762,10 @@ def _evaluate(case):
         return out
     expected = tuple(expected) if isinstance(expected, (tuple, list)) else (expected,)
     out["compared"] = True
+    out["inputs_checked"] = len(inputs)
+    if any(not np.array_equal(i, b, equal_nan=i.dtype.kind in "fc") for i, b in zip(inputs, before)):
+        out["findings"].append({"who": label, "sym": "input-array-modified", "msg": "an input NumPy array was written to during the computation",
+                                "detail": {}})
     if len(values) != len(expected):
         out["findings"].append({"who": label, "sym": "number-of-outputs",
                                 "msg": "%d outputs vs %d expected" % (len(values), len(expected)), "detail": {}})
@@ -528,6 +822,13 @@ def _run(case, ctx):
     ctx.sig = _strip(case)
     ev = _evaluate(case)
     plan = ev["plan"]
+    if case.get("fam"):
+        ctx.count("aud:" + case["fam"])
+        if case.get("big"):
+            big = [n for k in ("a", "v", "t") if isinstance(case.get(k), dict) for cs in case[k]["chunks"] for n in cs]
+            big += list(case.get("rows", ())) + [n for cs in (case["chunks"] if op == "unravel_index" else ()) for n in cs]
+            if any(n > 255 for n in big):
+                ctx.count("aud:chunk>255")
     if plan is not None:
         ctx.count("ran:" + plan["label"])
         ctx.nontrivial = plan["nontrivial"]
@@ -542,6 +843,7 @@ def _run(case, ctx):
         return
     if ev.get("compared"):
         ctx.count("compared")
+        ctx.count("inputs_unchanged_checked", ev.get("inputs_checked", 0))
     ctx.count("lazy_meta_checked", ev["lazy_checked"])
     for fd in ev["findings"]:
         if fd.get("shim"):
@@ -590,7 +892,7 @@ def _other(srng, cur, pool):
 
 def _sib_bins(srng, b):
     b = dict(b)
-    if b["kind"] == "int":
+    if b["kind"].startswith("int"):
         if srng.random() < 0.5:
             b["n"] = b["n"] + 1
         else:
@@ -655,7 +957,7 @@ def _sibling(case):
             return "right", c2
         e = list(case["edges"])
         inc = len(e) < 2 or e[0] <= e[-1]
-        c2["edges"] = e + [e[-1] + (1 if inc else -1)]
+        c2["edges"] = e + [e[-1] + (1 if inc else -1)] if e else [0]
         return "bins", c2
     if op == "searchsorted":
         c2["side"] = "right" if case["side"] == "left" else "left"
@@ -696,8 +998,11 @@ def _sibling(case):
         c2["dims"] = dims
         return "shape", c2
     if op == "coarsen":
+        if case["red"] in COARSEN_SIB and srng.random() < 0.6:
+            c2["red"] = COARSEN_SIB[case["red"]]         # same reduction function, other keyword arguments
+            return "kwargs", c2
         if srng.random() < 0.5 or not case["axes"]:
-            c2["red"] = _other(srng, case["red"], ("sum", "max", "min"))
+            c2["red"] = _other(srng, case["red"], ("max", "min") if case["red"] == "sumf64" else ("sum", "max", "min"))
             return "reduction", c2
         axes = dict(case["axes"])
         k = srng.choice(sorted(axes))
@@ -809,7 +1114,7 @@ def _p_unique(case):
     kw = {"return_index": bool(fl & 1), "return_inverse": bool(fl & 2), "return_counts": bool(fl & 4)}
     names = ("values",) + tuple(n for n, b in (("index", fl & 1), ("inverse", fl & 2), ("counts", fl & 4)) if b)
     feat = _input_features((x, d.chunks))
-    return {"label": "unique", "feat": feat, "params": ["nd>1"] if x.ndim > 1 else [], "nontrivial": _split(d.chunks), "names": names,
+    return {"label": "unique", "feat": feat, "params": ["nd>1"] if x.ndim > 1 else [], "nontrivial": _split(d.chunks), "names": names, "inputs": [x],
             "ref": lambda: np.unique(x, **kw), "run": lambda: da.unique(d, **kw)}
 
 
@@ -826,10 +1131,12 @@ def _p_bincount(case):
     feat += "&minlength>0" if case["minlength"] else ""
     feat += "&max(x)>=minlength" if case["minlength"] and x.size and int(x.max()) >= case["minlength"] else ""
     params = (["split_every"] if case["split_every"] else []) + (["weights=" + case["weights"]] if w is not None else [])
+    if case["split_every"] and len(d.chunks[0]) > case["split_every"]:
+        params.append("combine-level")          # more blocks than split_every: an intermediate combine step exists
     tol = (max(1, x.size), float(np.abs(w).sum()) or 1.0) if case["weights"] == "frac" else None
     # Calibration: np.bincount(empty, weights=empty) returns int64 (NumPy ignores the weights on its empty-input
     # shortcut) although every non-empty weighted call returns float64; dask returns float64 throughout.
-    return {"label": "bincount", "feat": feat, "params": params, "check_dtype": not (x.size == 0 and w is not None), "nontrivial": _split(d.chunks), "tol": tol,
+    return {"label": "bincount", "feat": feat, "params": params, "check_dtype": not (x.size == 0 and w is not None), "nontrivial": _split(d.chunks), "tol": tol, "inputs": [x, w],
             "ref": lambda: np.bincount(x, weights=w, **kw),
             "run": lambda: da.bincount(d, weights=dw, split_every=case["split_every"], **kw)}
 
@@ -839,12 +1146,38 @@ def _bins_args(b, dask_ok=True):
 
     if b["kind"] == "int":
         return b["n"], tuple(b["range"]), b["n"], tuple(b["range"])
+    if b["kind"] == "int-dask0d":         # a lazy number of bins (0-d dask array); needs range
+        return da.from_array(np.int64(b["n"]), chunks=()), tuple(b["range"]), b["n"], tuple(b["range"])
     e = np.array(b["edges"])
     if b["kind"] == "edges-list":
         return list(b["edges"]), None, list(b["edges"]), None
     if b["kind"] == "edges-dask" and dask_ok:
         return da.from_array(e, chunks=max(1, len(e) // 2)), None, e, None
     return e, None, e, None
+
+
+def _range_arg(kind, rg):
+    """The accepted spellings of histogram's range=: tuple, list, ndarray, dask array of shape (2,), list of lazy scalars."""
+    import dask.array as da
+    from dask import delayed
+
+    if rg is None or kind in (None, "tuple"):
+        return rg
+    lo, hi = float(rg[0]), float(rg[1])
+    if kind == "list":
+        return [rg[0], rg[1]]
+    if kind == "ndarray":
+        return np.array([lo, hi])
+    if kind == "dask":
+        return da.from_array(np.array([lo, hi]), chunks=1)
+    src = da.from_array(np.array([lo, hi, lo - 1.0]), chunks=2)
+    if kind == "lazy":
+        return [src.min() + 1.0, src.max()]
+    if kind == "mixed":
+        return [rg[0], src.max()]
+    if kind == "delayed-scalars":
+        return [delayed(lo), delayed(hi)]
+    raise AssertionError(kind)
 
 
 def _p_histogram(case):
@@ -856,12 +1189,18 @@ def _p_histogram(case):
         w = _weights(case["weights"], case["wseed"], x.shape)
         dw = da.from_array(w, chunks=d.chunks)
     dbins, drange, nbins, nrange = _bins_args(case["bins"])
+    if case.get("extra_range"):           # range= next to explicit edges: NumPy ignores it
+        drange = nrange = tuple(case["extra_range"])
     kw = {}
     if case["density"] is not None:
         kw["density"] = case["density"]
     feat = _input_features((x, d.chunks))
     params = ["bins=" + case["bins"]["kind"]]
-    feat += "&weights=" + ("int" if case["weights"] == "int" else "float") if w is not None else ""
+    if case.get("range_kind"):
+        params.append("range=" + case["range_kind"])
+    if case.get("extra_range"):
+        params.append("range+edges")
+    feat += "&weights=" + ("int" if case["weights"].startswith("int") else "float") if w is not None else ""
     feat += "&density" if case["density"] else ""
     tol = None
     if case["weights"] == "frac" or case["density"]:
@@ -869,16 +1208,33 @@ def _p_histogram(case):
         if case["density"]:
             tol = (tol[0], 1e3)     # densities are O(1/width); widths >= 0.1
     return {"label": "histogram", "feat": feat, "params": params, "nontrivial": _split(d.chunks), "names": ("hist", "edges"), "tol": tol,
+            "inputs": [x, w],
             "ref": lambda: np.histogram(x, bins=nbins, range=nrange, weights=w, **kw),
-            "run": lambda: da.histogram(d, bins=dbins, range=drange, weights=dw, **kw)}
+            "run": lambda: da.histogram(d, bins=dbins, range=_range_arg(case.get("range_kind"), drange), weights=dw, **kw)}
 
 
-def _dd_bins(form, bins):
+def _dd_bins(form, bins, edges_kind=None, range_kind=None):
+    rg = tuple(tuple(b["range"]) for b in bins) if form != "edges" else None
+    if rg is not None and range_kind == "list":
+        rg = [list(r) for r in rg]
+    elif rg is not None and range_kind == "ndarray":
+        rg = np.array(rg, dtype=float)
     if form == "int":
-        return bins[0]["n"], tuple(tuple(b["range"]) for b in bins)
+        return bins[0]["n"], rg
     if form == "ints":
-        return [b["n"] for b in bins], tuple(tuple(b["range"]) for b in bins)
+        ns = [b["n"] for b in bins]
+        return (tuple(ns) if edges_kind == "tuple" else ns), rg
+    if edges_kind == "list":
+        return [list(b["edges"]) for b in bins], None
+    if edges_kind == "tuple":
+        return tuple(tuple(b["edges"]) for b in bins), None
+    if edges_kind == "ndarray-in-tuple":
+        return tuple(np.array(b["edges"]) for b in bins), None
     return [np.array(b["edges"]) for b in bins], None
+
+
+def _dd_params(case):
+    return [k + "=" + case[k] for k in ("edges_kind", "range_kind", "sample_kind") if case.get(k)]
 
 
 def _p_histogram2d(case):
@@ -891,17 +1247,17 @@ def _p_histogram2d(case):
     if case["weights"]:
         w = _weights(case["weights"], case["wseed"], x.shape)
         dw = da.from_array(w, chunks=dx.chunks)
-    bins, rng_ = _dd_bins(case["form"], [case["bx"], case["by"]])
+    bins, rng_ = _dd_bins(case["form"], [case["bx"], case["by"]], case.get("edges_kind"), case.get("range_kind"))
     kw = {}
     if case["density"] is not None:
         kw["density"] = case["density"]
     feat = _input_features((x, dx.chunks), (y, None))
-    params = ["bins=" + case["form"], "via-histogram2d"]
-    feat += "&weights=" + ("int" if case["weights"] == "int" else "float") if w is not None else ""
+    params = ["bins=" + case["form"], "via-histogram2d"] + _dd_params(case)
+    feat += "&weights=" + ("int" if case["weights"].startswith("int") else "float") if w is not None else ""
     feat += "&density" if case["density"] else ""
-    tol = (max(1, x.size), 1e3) if case["density"] else None
+    tol = (max(1, x.size), 1e3) if case["density"] else (max(1, x.size), float(np.abs(w).sum()) or 1.0) if case["weights"] == "frac" else None
     return {"label": "histogramdd", "feat": feat, "params": params, "nontrivial": _split(dx.chunks), "names": ("hist", "xedges", "yedges"),
-            "tol": tol,
+            "tol": tol, "inputs": [x, y, w],
             "ref": lambda: np.histogram2d(x, y, bins=bins, range=rng_, weights=w, **kw),
             "run": lambda: da.histogram2d(dx, dy, bins=bins, range=rng_, weights=dw, **kw)}
 
@@ -920,18 +1276,22 @@ def _p_histogramdd(case):
         ds = da.from_array(s, chunks=(rows, (D,)))
     else:
         ds = tuple(da.from_array(np.ascontiguousarray(s[:, j]), chunks=(rows,)) for j in range(D))
-    bins, rng_ = _dd_bins(case["form"], case["bins"])
+        if case.get("sample_kind") == "list":
+            ds = list(ds)
+    bins, rng_ = _dd_bins(case["form"], case["bins"], case.get("edges_kind"), case.get("range_kind"))
     kw = {}
     if case["density"] is not None:
         kw["density"] = case["density"]
     feat = _input_features((s, (rows,)))
-    params = ["bins=" + case["form"], "rect" if case["rect"] else "seq"]
-    feat += "&weights=" + ("int" if case["weights"] == "int" else "float") if w is not None else ""
+    params = ["bins=" + case["form"], "rect" if case["rect"] else "seq"] + _dd_params(case)
+    feat += "&weights=" + ("int" if case["weights"].startswith("int") else "float") if w is not None else ""
     feat += "&density" if case["density"] else ""
-    tol = (max(1, n), 1e4) if case["density"] else None
+    tol = (max(1, n), 1e4) if case["density"] else (max(1, n), float(np.abs(w).sum()) or 1.0) if case["weights"] == "frac" else None
 
     def ref():
-        h, e = np.histogramdd(s if case["rect"] else tuple(s[:, j] for j in range(D)), bins=bins, range=rng_, weights=w, **kw)
+        seq = tuple(s[:, j] for j in range(D))
+        h, e = np.histogramdd(s if case["rect"] else list(seq) if case.get("sample_kind") == "list" else seq,
+                              bins=bins, range=rng_, weights=w, **kw)
         return (h,) + tuple(e)
 
     def run():
@@ -939,17 +1299,21 @@ def _p_histogramdd(case):
         return (h,) + tuple(e)
 
     return {"label": "histogramdd", "feat": feat, "params": params, "nontrivial": _split((rows,)),
-            "names": ("hist",) + tuple("edges%d" % j for j in range(D)), "tol": tol, "ref": ref, "run": run}
+            "names": ("hist",) + tuple("edges%d" % j for j in range(D)), "tol": tol, "inputs": [s, w], "ref": ref, "run": run}
 
 
 def _p_digitize(case):
     import dask.array as da
 
     x, d = _da(case["a"])
-    e = np.array(case["edges"], dtype=float)
+    bk = case.get("bins_kind")
+    e = np.array(case["edges"], dtype="float32" if bk == "float32" else "int64" if bk == "int-ndarray" else float)
+    if bk == "list":
+        e = list(case["edges"])
     feat = _input_features((x, d.chunks))
     params = (["decreasing"] if len(e) > 1 and e[0] > e[-1] else []) + (["right"] if case["right"] else [])
-    return {"label": "digitize", "feat": feat, "params": params, "nontrivial": _split(d.chunks),
+    params += ["bins=" + bk] if bk else []
+    return {"label": "digitize", "feat": feat, "params": params, "nontrivial": _split(d.chunks), "inputs": [x],
             "ref": lambda: np.digitize(x, e, right=case["right"]), "run": lambda: da.digitize(d, e, right=case["right"])}
 
 
@@ -961,8 +1325,20 @@ def _p_searchsorted(case):
     feat = _input_features((x, d.chunks), (v, dv.chunks))
     if v.ndim > 1:
         feat += "&v-nd>1"
-    return {"label": "searchsorted", "feat": feat, "params": ["side=" + case["side"]], "nontrivial": _split(d.chunks),
-            "ref": lambda: np.searchsorted(x, v, side=case["side"]), "run": lambda: da.searchsorted(d, dv, side=case["side"])}
+    if v.ndim == 0:
+        feat += "&v-0d"
+    kw = {}
+    params = ["side=" + case["side"]]
+    if case.get("sorter"):
+        # a is handed over UNSORTED together with sorter=argsort(a).  dask documents sorter= as unsupported: the only two
+        # acceptable outcomes are NotImplementedError (counted unsupported) or NumPy's result - not a silently ignored sorter.
+        r = np.random.default_rng(case["a"]["seed"])
+        x = x[r.permutation(len(x))]
+        d = da.from_array(x, chunks=d.chunks)
+        kw["sorter"] = np.argsort(x, kind="stable")
+        params.append("sorter")
+    return {"label": "searchsorted", "feat": feat, "params": params, "nontrivial": _split(d.chunks), "inputs": [x, v],
+            "ref": lambda: np.searchsorted(x, v, side=case["side"], **kw), "run": lambda: da.searchsorted(d, dv, side=case["side"], **kw)}
 
 
 def _p_isin(case):
@@ -975,38 +1351,56 @@ def _p_isin(case):
                or np.isnan(t.astype(float)).sum() > 1):
         au = False       # assume_unique=True on non-unique input is a usage error in NumPy as well
     targ = dt if case["tkind"] == "dask" else t if case["tkind"] == "numpy" else t.tolist()
-    feat = _input_features((x, d.chunks), (t, dt.chunks if case["tkind"] == "dask" else None))
+    ek = case.get("ekind", "dask")
+    earg = d if ek == "dask" else x if ek == "numpy" else x.tolist()
+    xr = earg if ek == "list" else x          # a nested list does not keep the shape of a zero-size array
+    feat = _input_features((x, d.chunks if ek == "dask" else None), (t, dt.chunks if case["tkind"] == "dask" else None))
     params = (["assume_unique"] if au else []) + (["invert"] if case["invert"] else []) + ["test=" + case["tkind"]]
-    return {"label": "isin", "feat": feat, "params": params, "nontrivial": _split(d.chunks) or (case["tkind"] == "dask" and _split(dt.chunks)),
-            "ref": lambda: np.isin(x, t, assume_unique=au, invert=case["invert"]),
-            "run": lambda: da.isin(d, targ, assume_unique=au, invert=case["invert"])}
+    params += ["element=" + ek] if ek != "dask" else []
+    return {"label": "isin", "feat": feat, "params": params, "inputs": [x, t],
+            "nontrivial": (ek == "dask" and _split(d.chunks)) or (case["tkind"] == "dask" and _split(dt.chunks)),
+            "ref": lambda: np.isin(xr, t, assume_unique=au, invert=case["invert"]),
+            "run": lambda: da.isin(earg, targ, assume_unique=au, invert=case["invert"])}
+
+
+def _akind(case, x, d):
+    """The array argument as the case wants it handed over: dask array (default), the NumPy array or a nested list
+    (argwhere / flatnonzero / count_nonzero / compress convert it themselves).  Returns (argument, chunks or None, params, argument of the reference)."""
+    ak = case.get("akind", "dask")
+    if ak == "dask":
+        return d, d.chunks, [], x
+    arg = x if ak == "numpy" else x.tolist()
+    return arg, None, ["a=" + ak], arg            # the reference gets the same object (a nested list has its own dtype rules)
 
 
 def _p_nonzero(case):
     import dask.array as da
 
     x, d = _da(case["a"])
-    feat = _input_features((x, d.chunks)) + ("&nd>1" if x.ndim > 1 else "")
-    return {"label": "argwhere", "feat": feat, "params": ["via-nonzero"], "nontrivial": _split(d.chunks), "names": tuple("axis%d" % i for i in range(x.ndim)),
-            "ref": lambda: np.nonzero(x), "run": lambda: da.nonzero(d)}
+    arg, ch, extra, xr = _akind(case, x, d)
+    feat = _input_features((x, ch)) + ("&nd>1" if x.ndim > 1 else "")
+    return {"label": "argwhere", "feat": feat, "params": ["via-nonzero"] + extra, "nontrivial": bool(ch) and _split(ch), "names": tuple("axis%d" % i for i in range(x.ndim)),
+            "inputs": [x], "ref": lambda: np.nonzero(xr), "run": lambda: da.nonzero(arg)}
 
 
 def _p_argwhere(case):
     import dask.array as da
 
     x, d = _da(case["a"])
-    feat = _input_features((x, d.chunks)) + ("&nd>1" if x.ndim > 1 else "")
-    return {"label": "argwhere", "feat": feat, "nontrivial": _split(d.chunks),
-            "ref": lambda: np.argwhere(x), "run": lambda: da.argwhere(d)}
+    arg, ch, extra, xr = _akind(case, x, d)
+    feat = _input_features((x, ch)) + ("&nd>1" if x.ndim > 1 else "")
+    return {"label": "argwhere", "feat": feat, "params": extra, "nontrivial": bool(ch) and _split(ch), "inputs": [x],
+            "ref": lambda: np.argwhere(xr), "run": lambda: da.argwhere(arg)}
 
 
 def _p_flatnonzero(case):
     import dask.array as da
 
     x, d = _da(case["a"])
-    feat = _input_features((x, d.chunks)) + ("&nd>1" if x.ndim > 1 else "")
-    return {"label": "argwhere", "feat": feat, "params": ["via-flatnonzero"], "nontrivial": _split(d.chunks),
-            "ref": lambda: np.flatnonzero(x), "run": lambda: da.flatnonzero(d)}
+    arg, ch, extra, xr = _akind(case, x, d)
+    feat = _input_features((x, ch)) + ("&nd>1" if x.ndim > 1 else "")
+    return {"label": "argwhere", "feat": feat, "params": ["via-flatnonzero"] + extra, "nontrivial": bool(ch) and _split(ch), "inputs": [x],
+            "ref": lambda: np.flatnonzero(xr), "run": lambda: da.flatnonzero(arg)}
 
 
 def _p_count_nonzero(case):
@@ -1017,10 +1411,15 @@ def _p_count_nonzero(case):
     axis = tuple(axis) if isinstance(axis, list) else axis
     if isinstance(axis, tuple) and len(set(a % x.ndim for a in axis)) != len(axis):
         raise _Reject("duplicate axis")
-    feat = _input_features((x, d.chunks))
-    params = ["axis=" + ("None" if axis is None else "int" if isinstance(axis, int) else "tuple")]
-    return {"label": "count_nonzero", "feat": feat, "params": params, "nontrivial": _split(d.chunks),
-            "ref": lambda: np.count_nonzero(x, axis=axis), "run": lambda: da.count_nonzero(d, axis=axis)}
+    arg, ch, extra, xr = _akind(case, x, d)
+    feat = _input_features((x, ch))
+    params = ["axis=" + ("None" if axis is None else "int" if isinstance(axis, int) else "tuple")] + extra
+    return {"label": "count_nonzero", "feat": feat, "params": params, "nontrivial": bool(ch) and _split(ch), "inputs": [x],
+            "ref": lambda: np.count_nonzero(xr, axis=axis), "run": lambda: da.count_nonzero(arg, axis=axis)}
+
+
+def _dims_arg(kind, dims):
+    return list(dims) if kind == "list" else np.array(dims) if kind == "ndarray" else tuple(dims)
 
 
 def _p_ravel_multi_index(case):
@@ -1029,23 +1428,50 @@ def _p_ravel_multi_index(case):
     dims = tuple(case["dims"])
     ish = tuple(case["ishape"])
     r = np.random.default_rng(case["seed"])
-    lo, hi = (0, 0) if case["mode"] == "raise" else (-3, 3)
-    idx = [r.integers(lo, dm + hi, int(np.prod(ish))).astype("int64").reshape(ish) for dm in dims]
+    mode = tuple(case["mode"]) if isinstance(case["mode"], list) else case["mode"]
+    modes = mode if isinstance(mode, tuple) else (mode,) * len(dims)
+    idt = case.get("idtype", "int64")
+    idx = []
+    for dm, md in zip(dims, modes):
+        lo, hi = (0, 0) if md == "raise" else (-3, 3)
+        idx.append(r.integers(lo, dm + hi, int(np.prod(ish))).astype(idt).reshape(ish))
+    members = case.get("members")
     if case["stacked"]:
         st = np.stack(idx)
         darg = da.from_array(st, chunks=tuple(tuple(c) for c in case["schunks"]))
         narg = st
         chunks = darg.chunks
+    elif members:
+        # tuple members that are not all dask arrays of one shape: NumPy broadcasts them
+        dl, nl, chunks = [], [], ()
+        for i, mk, ch, om in zip(idx, members, case["chunks"], case["ones_mask"]):
+            if mk == "scalar":
+                v = int(i.reshape(-1)[0]) if i.size else 0
+                dl.append(v), nl.append(v)
+            elif mk == "numpy":
+                dl.append(i), nl.append(i)
+            elif mk == "ones":        # length-1 axes (held in one chunk) that broadcast against the other members
+                j = i[tuple(slice(0, 1) if o else slice(None) for o in om)]
+                dd = da.from_array(j, chunks=tuple((1,) if (o and n) else tuple(c) for o, n, c in zip(om, ish, ch)))
+                dl.append(dd), nl.append(j)
+                chunks += dd.chunks
+            else:
+                dd = da.from_array(i, chunks=tuple(tuple(c) for c in ch))
+                dl.append(dd), nl.append(i)
+                chunks += dd.chunks
+        darg, narg = tuple(dl), tuple(nl)
     else:
         ds = [da.from_array(i, chunks=tuple(tuple(c) for c in ch)) for i, ch in zip(idx, case["chunks"])]
         darg, narg = tuple(ds), tuple(idx)
         chunks = tuple(c for dd in ds for c in dd.chunks)
-    ddims = dims[0] if case["scalar_dims"] else dims
+    ddims = dims[0] if case["scalar_dims"] else _dims_arg(case.get("dims_kind"), dims)
     feat = _input_features((idx[0], chunks)) + ("&stacked" if case["stacked"] else "&tuple")
-    params = ["mode=" + case["mode"], "order=" + case["order"]]
-    return {"label": "ravel_multi_index", "feat": feat, "params": params, "nontrivial": _split(chunks),
-            "ref": lambda: np.ravel_multi_index(narg, ddims, mode=case["mode"], order=case["order"]),
-            "run": lambda: da.ravel_multi_index(darg, ddims, mode=case["mode"], order=case["order"])}
+    params = ["mode=" + (mode if isinstance(mode, str) else "per-dim"), "order=" + case["order"]]
+    params += (["dims=" + case["dims_kind"]] if case.get("dims_kind") else []) + (["index=" + idt] if idt != "int64" else [])
+    params += ["members-broadcast"] if members else []
+    return {"label": "ravel_multi_index", "feat": feat, "params": params, "nontrivial": _split(chunks), "inputs": idx,
+            "ref": lambda: np.ravel_multi_index(narg, ddims, mode=mode, order=case["order"]),
+            "run": lambda: da.ravel_multi_index(darg, ddims, mode=mode, order=case["order"])}
 
 
 def _p_unravel_index(case):
@@ -1054,13 +1480,17 @@ def _p_unravel_index(case):
     dims = tuple(case["dims"])
     ish = tuple(case["ishape"])
     r = np.random.default_rng(case["seed"])
-    idx = r.integers(0, int(np.prod(dims)), int(np.prod(ish))).astype("int64").reshape(ish)
+    idt = case.get("idtype", "int64")
+    idx = r.integers(0, min(int(np.prod(dims)), 256 if idt == "uint8" else 2 ** 31), int(np.prod(ish))).astype(idt).reshape(ish)
     d = da.from_array(idx, chunks=tuple(tuple(c) for c in case["chunks"]))
     feat = _input_features((idx, d.chunks)) + ("&nd>1" if idx.ndim > 1 else "")
-    params = ["order=" + case["order"]]
+    params = ["order=" + case["order"]] + (["index=" + idt] if idt != "int64" else [])
+    params += ["shape=" + case["dims_kind"]] if case.get("dims_kind") else []
+    ddims = _dims_arg(case.get("dims_kind"), dims)
     return {"label": "unravel_index", "feat": feat, "params": params, "name_outputs": False, "nontrivial": _split(d.chunks), "names": tuple("dim%d" % i for i in range(len(dims))),
-            "ref": lambda: np.unravel_index(idx, dims, order=case["order"]),
-            "run": lambda: da.unravel_index(d, dims, order=case["order"])}
+            "inputs": [idx],
+            "ref": lambda: np.unravel_index(idx, ddims, order=case["order"]),
+            "run": lambda: da.unravel_index(d, ddims, order=case["order"])}
 
 
 def _coarsen_ref(red, x, axes, trim):
@@ -1076,23 +1506,39 @@ def _coarsen_ref(red, x, axes, trim):
     return red(x[tuple(sl)].reshape(newshape), axis=tuple(raxes))
 
 
+COARSEN_KW = {"var1": ("var", {"ddof": 1}), "std0": ("std", {"ddof": 0}), "sumf64": ("sum", {"dtype": "float64"}),
+              "prod": ("prod", {}), "var0": ("var", {"ddof": 0}), "std1": ("std", {"ddof": 1}), "sumc": ("sum", {"dtype": "complex128"})}
+COARSEN_SIB = {"var1": "var0", "std0": "std1", "sumf64": "sumc"}
+
+
 def _p_coarsen(case):
+    import functools
+
     import dask.array as da
 
     x, d = _da(case["a"])
     axes = {int(k): v for k, v in case["axes"].items()}
     red = case["red"]
-    nred = getattr(np, red[3:] if red.startswith("da.") else red)
-    dred = getattr(da, red[3:]) if red.startswith("da.") else nred
+    kwargs = {}
+    if red in COARSEN_KW:
+        nm, kwargs = COARSEN_KW[red]
+        nred = dred = getattr(np, nm)
+    else:
+        nred = getattr(np, red[3:] if red.startswith("da.") else red)
+        dred = getattr(da, red[3:]) if red.startswith("da.") else nred
     trim = case["trim_excess"]
     excess = any(x.shape[a] % k for a, k in axes.items())
     # coarsen is not blockwise: an empty chunk on a length-1 axis is the same situation as on any other axis
     feat = "&".join(sorted(set(_input_features((x, d.chunks)).replace("short-axis-split", "empty-chunk").split("&"))))
-    params = ["red=" + red] + (["excess"] if excess else [])
+    if any(k > x.shape[a] for a, k in axes.items()):
+        feat += "&factor>length"               # everything is trimmed: the reference result has a zero-length axis
+    params = ["red=" + red] + (["excess"] if excess else []) + (["kwargs"] if kwargs else []) + (["long-axis"] if case.get("long") else [])
     params += ["misaligned-chunks"] if any(c % axes.get(a, 1) for a, cs in enumerate(d.chunks) for c in cs) else []
-    tol = (max(axes.values(), default=1) ** max(1, len(axes)), 4.0) if red == "mean" else None
-    return {"label": "coarsen", "feat": feat, "params": params, "nontrivial": _split(d.chunks), "tol": tol,
-            "ref": lambda: _coarsen_ref(nred, x, axes, trim), "run": lambda: da.coarsen(dred, d, axes, trim_excess=trim)}
+    floaty = red in ("mean", "da.mean", "var1", "std0", "var0", "std1")
+    tol = (max(axes.values(), default=1) ** max(1, len(axes)), 16.0 if red[:3] in ("var", "std") else 4.0) if floaty else None
+    return {"label": "coarsen", "feat": feat, "params": params, "nontrivial": _split(d.chunks), "tol": tol, "inputs": [x],
+            "ref": lambda: _coarsen_ref(functools.partial(nred, **kwargs), x, axes, trim),
+            "run": lambda: da.coarsen(dred, d, dict(axes), trim_excess=trim, **kwargs)}
 
 
 def _p_compress(case):
@@ -1113,10 +1559,12 @@ def _p_compress(case):
     else:
         dcond = cond
     axis = case["axis"]
-    feat = _input_features((x, d.chunks), (None, (tuple(case["cchunks"]),) if ck == "dask" else None))
+    arg, ch, extra, xr = _akind(case, x, d)
+    feat = _input_features((x, ch), (None, (tuple(case["cchunks"]),) if ck == "dask" else None))
     feat += "&cond=" + ("dask" if ck == "dask" else "concrete")
     n = x.size if axis is None else x.shape[axis]
     params = ["cond=" + ck] + (["short-condition"] if ln < n else []) + (["nd>1"] if x.ndim > 1 else [])
-    params += ["axis=None"] if axis is None else []
-    return {"label": "compress", "feat": feat, "params": params, "nontrivial": _split(d.chunks),
-            "ref": lambda: np.compress(cond, x, axis=axis), "run": lambda: da.compress(dcond, d, axis=axis)}
+    params += (["axis=None"] if axis is None else []) + extra
+    return {"label": "compress", "feat": feat, "params": params, "inputs": [x, cond],
+            "nontrivial": (bool(ch) and _split(ch)) or (ck == "dask" and _split((tuple(case["cchunks"]),))),
+            "ref": lambda: np.compress(cond, xr, axis=axis), "run": lambda: da.compress(dcond, arg, axis=axis)}
